@@ -19,6 +19,7 @@ package floatingip
 import (
 	"encoding/json"
 	"fmt"
+	"math"
 	"net"
 	"sync"
 	"time"
@@ -161,6 +162,11 @@ func fipCheck(fip *FloatingIPPool) error {
 			return fmt.Errorf("ip range %s not in subnet %s", fip.IPRanges[i].String(), net.String())
 		}
 		if i != 0 {
+			if nets.IPToInt(fip.IPRanges[i-1].Last) == math.MaxUint32 {
+				// nothing can follow a range ending at 255.255.255.255, and Last+1 below would wrap around to 0
+				return fmt.Errorf("ip range %s and %s can be merge to one or has wrong order",
+					fip.IPRanges[i-1].String(), fip.IPRanges[i].String())
+			}
 			if nets.IPToInt(fip.IPRanges[i].First) <= nets.IPToInt(fip.IPRanges[i-1].Last)+1 {
 				return fmt.Errorf("ip range %s and %s can be merge to one or has wrong order",
 					fip.IPRanges[i-1].String(), fip.IPRanges[i].String())
